@@ -28,19 +28,24 @@ def prod_model_agreement(ctx):
     names = ["utf8", "command", "event"]
     d = os.path.join(ctx["build"], "c15prod")
     os.makedirs(d, exist_ok=True)
-    src = "From Coq Require Import List NArith.\nFrom SNT Require Import Corr.C15Prod Gen.ProdNFA Gen.ProdDFA.\n"
+    src = "From Coq Require Import List NArith.\nFrom SNT Require Import Corr.C15Prod Automata.ProdCheck Gen.ProdNFA Gen.ProdDFA.\nImport ListNotations.\nLocal Open Scope N_scope.\n"
     for nm in names:
         src += "Eval vm_compute in (prod_agree 4096 (Nat.mul 400 400) %s_nfa_data %s_data).\n" % (nm, nm)
+    # the certificate check behind Props/C15Prod.v, and a shortest string on which DFA and NFA differ when it fails
+    for nm in names:
+        src += ("Eval vm_compute in (if check %s_nfa_data %s_data %s_subsets (N.to_nat 100000) then (true, None) "
+                "else (false, prod_witness %s_nfa_data %s_data)).\n" % (nm, nm, nm, nm, nm))
     path = os.path.join(d, "prod_agree.v")
     with open(path, "w") as f:
         f.write(src)
     t0 = time.time()
     p = subprocess.run(["coqc", "-noglob", "-Q", os.path.join(ctx["coq"], "theories"), "SNT", path], cwd=d,
                        stdout=subprocess.PIPE, stderr=subprocess.STDOUT, text=True, timeout=3000)
-    codes = re.findall(r"=\s*(\d+)%N", p.stdout)
+    codes = re.findall(r"=\s*(\d+)(?:%N)?\s*:\s*N\b", p.stdout)
+    certs = re.findall(r"=\s*\((true|false),\s*(None|Some\s*\[[^\]]*\])\)", p.stdout)
     res = {"violations": [], "coverage": {"production_automata_through_model": names}, "notes": [
         "model compile vs production DFA (%s): codes %s, %.1fs" % (", ".join(names), codes, time.time() - t0)]}
-    if p.returncode != 0 or len(codes) != len(names):
+    if p.returncode != 0 or len(codes) != len(names) or len(certs) != len(names):
         res["violations"].append({"kind": "broken-correspondence", "what": "cannot evaluate the model of compile on the production NFAs: " + p.stdout[-800:], "case": {}})
         return res
     what = {"1": "start state", "2": "number of states", "3": "transition table", "4": "accepting/terminal/tags"}
@@ -49,6 +54,20 @@ def prod_model_agreement(ctx):
             res["violations"].append({"kind": "broken-correspondence",
                                       "what": "the model of NFA::compile run on the production %s NFA does not reproduce the production DFA (%s; code %s)" % (nm, what.get(c, "model panic/fuel"), c),
                                       "case": {"automaton": nm}})
+    for nm, (ok, wit) in zip(names, certs):
+        if ok == "true":
+            continue
+        if wit.startswith("Some"):
+            bs = [int(x) for x in re.findall(r"\d+", wit)]
+            res["violations"].append({"kind": "failing-input",
+                                      "what": "production %s automaton: after this byte string the compiled DFA (verif::dump_dfa) and the NFA it was compiled from "
+                                              "(verif::dump_nfa) disagree (dead vs reachable, accepting vs stop reachable, or tags); shortest such string" % nm,
+                                      "case": {"automaton": nm, "bytes": bs, "text": bytes(bs).decode("latin-1")}})
+        else:
+            res["violations"].append({"kind": "broken-correspondence",
+                                      "what": "production %s automaton: the subset-construction certificate no longer checks; no disagreeing string found "
+                                              "within the search budget" % nm, "case": {"automaton": nm}})
+    res["coverage"]["production_certificates"] = {nm: ok for nm, (ok, _) in zip(names, certs)}
     return res
 
 
